@@ -25,6 +25,34 @@
  *                                               recent `set` (change its text / delete it); no-ops
  *                                               for the ideal dictionary, which holds copies
  *
+ *   COMPOSITES of the operations above (harness/driver level; the model side computes the expected
+ *   output from the existing spec operations, the op datatypes of ContSpec.v are unchanged):
+ *   quiet prefix   '~' op                    -- the operation is carried out, only `ret` is printed
+ *                                               (step ::= ret '|'); used to build long containers cheaply
+ *   own-object arguments (the container is handed back an object it stores itself):
+ *     list  : remove_own:I  index_own:I  find_own:I  contains_own:I
+ *                                            -- e = get(I); if e is an object: remove/index/find/contains(e)
+ *     vector: remove_own:K  find_own:K  contains_own:K
+ *                                            -- e = find(K); if found: remove/find/contains(e)
+ *     map   : set_own:K                      -- v = get(K); if found: set(K, v)   (the map's own value object)
+ *             has_value_own:K                -- v = get(K); if found: has_value(v)
+ *             set_ownpair:K                  -- p = the map's own pair for K (from its iterator): set(p, NULL)
+ *             set_ownkey:K:V  get_ownkey:K  remove_ownkey:K
+ *                                            -- p as above: set(p->key, V) / get(p->key) / remove(p->key)
+ *             set_pair:K:V                   -- pair form with a pair of the caller's: set(objpair(K,V), NULL)
+ *             get_keys_into:C  get_values_into:C  get_pairs_into:C      (C = A | L | D)
+ *                                            -- non-NULL form: the caller passes a list of class array / linked_list /
+ *                                               dlinked_list that already holds the object "pre"; ret = [TX..] resp.
+ *                                               [pre,PR..] read from that list ('?' if another list came back)
+ *   second use of a copy (all three interfaces), at most one `fork` per history:
+ *     fork                                   -- d = dup(c); from now on operations act on the COPY d, the
+ *                                               original is kept, read back after every step and deleted
+ *                                               after the copy at the end.  The copy's objects are shown
+ *                                               under the ids of the originals they were copied from (the
+ *                                               harness registers copy[i] under the id of original[i] when
+ *                                               both are objects with equal text and copy[i] is a new object)
+ *     swap                                   -- exchange the roles of the two containers (no-op before fork)
+ *
  * Element identity.  Every K / KN(!= '_') argument of a list or vector operation creates one fresh
  * spif_str object; objects are numbered 0,1,2,... in creation order over the whole history (probe
  * objects of remove/index/find/contains included; they are deleted right after the call).  The id
@@ -36,6 +64,8 @@
  *
  *   result ::= step ( ' ; ' step )* ' ; end'
  *   step   ::= ret ' ' readback '|' bdump        -- A part before '|', B part after (may be empty)
+ *            | ret '|'                              quiet step ('~' prefix)
+ *            | ret ' ' readback ' O ' readback '|' bdump ' O ' bdump     after `fork`: current container, then the other
  *   E      ::= id | '_' | '?'                     (list; and level B of list and vector)
  *   VE     ::= text | '_' | '?'                   (vector, level A) the element's text if the pointer is an
  *                                  object the vector currently stores (inserted, not yet handed back
@@ -44,7 +74,8 @@
  *   TX     ::= text | '_' | '?'   with a trailing '!' if the pointer is one of the caller's own
  *                                  live key/value objects (never for a correct map)
  *   PR     ::= TX '=' TX | '_' | '?'
- *   [X..]  ::= '[' X (',' X)* ']' | '[]'          a trailing '!' inside = walk did not stop after n+2
+ *   [X..]  ::= '[' X (',' X)* ']' | '[]'          a trailing '!' inside = walk did not stop after n+2; a trailing '+' =
+ *                                                 the exhausted iterator yielded another object / said has_next again
  *
  *   ret:  T | F            append prepend insert insert_at reverse contains set has_key has_value
  *         E                remove remove_at get find        (list; VE for vector)
@@ -55,6 +86,10 @@
  *         TX               map get          PR  map remove
  *         [TX..]           get_keys get_values      [PR..]  get_pairs, map iterate
  *         '-'              mutk mutv delk delv newpair
+ *         X '/' Y          own-object composites: X = the looked-up own object (E / VE / TX, PR for
+ *                          set_ownpair, the key text for *_ownkey), Y = result of the second call, or
+ *                          '_/-' when the lookup found nothing
+ *         T                fork swap   ('?' when dup returned NULL)
  *   readback:
  *     list  : 'n=' int ' g=' [E..] ' i=' [E..]     g = get(i) for i = -n-1 .. n ; i = fresh iterator
  *     vector: 'n=' int ' i=' [VE..] ' a=' [VE..] ' m=' ('ok'|'BAD')     a = to_array; m = ok iff the iterator
@@ -89,9 +124,11 @@ enum { CL_ARRAY, CL_LL, CL_DLL };
 static int iface, cls, show_b;
 
 /* ---- element table --------------------------------------------------------------------- */
-#define MAXENT 8192
-static struct { spif_obj_t p; int id; int inset; int seen; } tab[MAXENT];
+#define MAXENT 32768
+static struct { spif_obj_t p; int id; int inset; int seen; int own; } tab[MAXENT];
 static int ntab, next_id;
+static spif_obj_t cont[2];          /* cont[cur] = the container operations act on; cont[1 - cur] = the other one after `fork` */
+static int cur, rb_tag;             /* rb_tag = the container whose objects pv() shows */
 static spif_obj_t pool[MAXENT];
 static int npool;
 static spif_obj_t ck, cv;           /* the caller's key / value objects of the last map set */
@@ -102,7 +139,7 @@ static spif_obj_t mk_elem(const char *t)
     spif_obj_t o;
     if (t[0] == '_') return (spif_obj_t) NULL;
     o = mk_str(t);
-    if (ntab < MAXENT) { tab[ntab].p = o; tab[ntab].id = next_id; tab[ntab].inset = tab[ntab].seen = 0; ntab++; }
+    if (ntab < MAXENT) { tab[ntab].p = o; tab[ntab].id = next_id; tab[ntab].inset = tab[ntab].seen = 0; tab[ntab].own = cur; ntab++; }
     next_id++;
     return o;
 }
@@ -134,7 +171,7 @@ static void pv(spif_obj_t p)
     int i;
     if (!p) { putchar('_'); return; }
     i = slot_of(p);
-    if (i < 0 || !tab[i].inset) { putchar('?'); return; }
+    if (i < 0 || !tab[i].inset || tab[i].own != rb_tag) { putchar('?'); return; }
     tab[i].seen++;
     fputs((const char *) SPIF_STR_STR(SPIF_STR(p)), stdout);
 }
@@ -143,7 +180,7 @@ static void seen_reset(void) { int i; for (i = 0; i < ntab; i++) tab[i].seen = 0
 static int seen_all_once(void)
 {
     int i;
-    for (i = 0; i < ntab; i++) if (tab[i].inset ? tab[i].seen != 1 : tab[i].seen != 0) return 0;
+    for (i = 0; i < ntab; i++) if ((tab[i].inset && tab[i].own == rb_tag) ? tab[i].seen != 1 : tab[i].seen != 0) return 0;
     return 1;
 }
 static void pt(spif_obj_t p)
@@ -169,14 +206,19 @@ static int sane(int n) { return n >= 0 && n <= 4000; }
 /* fresh iterator sweep: elements while has_next, at most n + 3 of them */
 static void sweep(spif_iterator_t it, int n, printer_t pr)
 {
-    int k = 0;
+    int k = 0, cut = 0;
     putchar('[');
     if (SPIF_ITERATOR_ISNULL(it)) { printf("?]"); return; }
     while (SPIF_ITERATOR_HAS_NEXT(it)) {
         if (k) putchar(',');
-        if (k > n + 2) { putchar('!'); break; }
+        if (k > n + 2) { putchar('!'); cut = 1; break; }
         pr(SPIF_ITERATOR_NEXT(it));
         k++;
+    }
+    /* an exhausted iterator stays exhausted: next yields nothing, has_next stays false ('+' otherwise) */
+    if (!cut) {
+        if (SPIF_ITERATOR_NEXT(it)) putchar('+');
+        if (SPIF_ITERATOR_HAS_NEXT(it)) putchar('+');
     }
     putchar(']');
     SPIF_ITERATOR_DEL(it);
@@ -327,6 +369,17 @@ static int do_list_op(spif_obj_t c, int na, char **a)
         putchar(']');
         SPIF_LIST_DEL(d);
     }
+    else if ((IS("remove_own") || IS("index_own") || IS("find_own") || IS("contains_own")) && na == 2) {
+        /* the list is handed back an object it stores itself */
+        e = SPIF_LIST_GET(c, (spif_listidx_t) atoi(a[1]));
+        pe(e);
+        putchar('/');
+        if (!e) putchar('-');
+        else if (IS("remove_own")) { r = SPIF_LIST_REMOVE(c, e); pe(r); to_pool(r); }
+        else if (IS("index_own")) printf("%d", (int) SPIF_LIST_INDEX(c, e));
+        else if (IS("find_own")) pe(SPIF_LIST_FIND(c, e));
+        else pb(SPIF_LIST_CONTAINS(c, e));
+    }
     else return 0;
     return 1;
 }
@@ -355,6 +408,25 @@ static int do_vector_op(spif_obj_t c, int na, char **a)
     else if (IS("count") && na == 1) { printf("%d", (int) (size_t) SPIF_VECTOR_COUNT(c)); }
     else if (IS("iterate") && na == 1) { n = (int) (size_t) SPIF_VECTOR_COUNT(c); sweep(SPIF_VECTOR_ITERATOR(c), sane(n) ? n : 0, pv); }
     else if (IS("to_array") && na == 1) { n = (int) (size_t) SPIF_VECTOR_COUNT(c); print_array_and_free(SPIF_VECTOR_TO_ARRAY(c), n, pv); }
+    else if ((IS("remove_own") || IS("find_own") || IS("contains_own")) && na == 2) {
+        /* the vector is handed back an object it stores itself */
+        spif_obj_t f;
+        e = mk_elem(a[1]);
+        f = SPIF_VECTOR_FIND(c, e);
+        pv(f);
+        del_probe(e);
+        putchar('/');
+        i = f ? slot_of(f) : -1;
+        if (i < 0 || !tab[i].inset || tab[i].own != cur) putchar('-');
+        else if (IS("remove_own")) {
+            r = SPIF_VECTOR_REMOVE(c, f);
+            pv(r);
+            i = r ? slot_of(r) : -1;
+            if (i >= 0 && tab[i].inset && tab[i].own == cur) { tab[i].inset = 0; to_pool(r); }
+        }
+        else if (IS("find_own")) pv(SPIF_VECTOR_FIND(c, f));
+        else pb(SPIF_VECTOR_CONTAINS(c, f));
+    }
     else return 0;
     return 1;
 }
@@ -370,10 +442,62 @@ static void retext(spif_obj_t o, const char *t)
     spif_str_init_from_ptr(SPIF_STR(o), (spif_charptr_t) t);
 }
 
+/* the map's OWN pair object for key text K, as its iterator hands it out (NULL if there is none) */
+static spif_obj_t own_pair(spif_obj_t c, const char *K)
+{
+    spif_iterator_t it = SPIF_MAP_ITERATOR(c);
+    spif_obj_t p, found = (spif_obj_t) NULL;
+    int k = 0, n = (int) (size_t) SPIF_MAP_COUNT(c);
+
+    if (SPIF_ITERATOR_ISNULL(it)) return found;
+    while (!found && SPIF_ITERATOR_HAS_NEXT(it) && k++ <= (sane(n) ? n : 0) + 2) {
+        p = SPIF_ITERATOR_NEXT(it);
+        if (p && SPIF_OBJ_IS_OBJPAIR(p) && SPIF_OBJPAIR(p)->key
+            && SPIF_OBJ_CLASS(SPIF_OBJPAIR(p)->key) == SPIF_CLASS(SPIF_STRCLASS_VAR(str))
+            && !strcmp((const char *) SPIF_STR_STR(SPIF_STR(SPIF_OBJPAIR(p)->key)), K)) found = p;
+    }
+    SPIF_ITERATOR_DEL(it);
+    return found;
+}
+
 static int do_map_op(spif_obj_t c, int na, char **a)
 {
     spif_obj_t e, r;
     int n;
+    if ((IS("set_own") || IS("has_value_own")) && na == 2) {
+        /* the value argument is the very object the map stores for K */
+        e = mk_str(a[1]);
+        r = SPIF_MAP_GET(c, e);
+        pt(r);
+        putchar('/');
+        if (!r) putchar('-');
+        else if (IS("set_own")) pb(SPIF_MAP_SET(c, e, r));
+        else pb(SPIF_MAP_HAS_VALUE(c, r));
+        SPIF_OBJ_DEL(e);
+        return 1;
+    }
+    if (IS("set_pair") && na == 3) {
+        /* pair form with a pair of the caller's */
+        spif_obj_t k = mk_str(a[1]), v = mk_str(a[2]);
+        spif_objpair_t p = spif_objpair_new_from_both(k, v);
+        SPIF_OBJ_DEL(k);
+        SPIF_OBJ_DEL(v);
+        pb(SPIF_MAP_SET(c, SPIF_OBJ(p), (spif_obj_t) NULL));
+        spif_objpair_del(p);
+        return 1;
+    }
+    if ((IS("set_ownpair") && na == 2) || (IS("set_ownkey") && na == 3) || (IS("get_ownkey") && na == 2) || (IS("remove_ownkey") && na == 2)) {
+        /* the pair / key argument is the map's own object */
+        spif_obj_t p = own_pair(c, a[1]);
+        if (IS("set_ownpair")) pp(p); else pt(p ? SPIF_OBJPAIR(p)->key : (spif_obj_t) NULL);
+        putchar('/');
+        if (!p) putchar('-');
+        else if (IS("set_ownpair")) pb(SPIF_MAP_SET(c, p, (spif_obj_t) NULL));
+        else if (IS("set_ownkey")) { e = mk_str(a[2]); pb(SPIF_MAP_SET(c, SPIF_OBJPAIR(p)->key, e)); SPIF_OBJ_DEL(e); }
+        else if (IS("get_ownkey")) pt(SPIF_MAP_GET(c, SPIF_OBJPAIR(p)->key));
+        else { r = SPIF_MAP_REMOVE(c, SPIF_OBJPAIR(p)->key); pp(r); to_pool(r); }
+        return 1;
+    }
     if (IS("set") && na == 3) {
         drop_caller();
         ck = mk_str(a[1]); cv = mk_str(a[2]);
@@ -398,6 +522,25 @@ static int do_map_op(spif_obj_t c, int na, char **a)
     else if (IS("get_values") && na == 1) { print_list_and_del(SPIF_MAP_GET_VALUES(c, (spif_list_t) NULL), pt); }
     else if (IS("get_pairs") && na == 1) { print_list_and_del(SPIF_MAP_GET_PAIRS(c, (spif_list_t) NULL), pp); }
     else if (IS("iterate") && na == 1) { n = (int) (size_t) SPIF_MAP_COUNT(c); sweep(SPIF_MAP_ITERATOR(c), sane(n) ? n : 0, pp); }
+    else if ((IS("get_keys_into") || IS("get_values_into") || IS("get_pairs_into")) && na == 2) {
+        /* non-NULL form: the caller supplies the list (of class A / L / D, already holding one object) to append to */
+        spif_list_t l = (a[1][0] == 'A') ? SPIF_LIST_NEW(array) : (a[1][0] == 'L') ? SPIF_LIST_NEW(linked_list) : SPIF_LIST_NEW(dlinked_list);
+        spif_list_t got;
+        int i;
+        SPIF_LIST_APPEND(l, mk_str("pre"));
+        got = IS("get_keys_into") ? SPIF_MAP_GET_KEYS(c, l) : IS("get_values_into") ? SPIF_MAP_GET_VALUES(c, l) : SPIF_MAP_GET_PAIRS(c, l);
+        if (got != l) putchar('?');
+        else {
+            n = (int) SPIF_LIST_COUNT(l);
+            putchar('[');
+            for (i = 0; sane(n) && i < n; i++) {
+                if (i) putchar(',');
+                if (i == 0 || !IS("get_pairs_into")) pt(SPIF_LIST_GET(l, i)); else pp(SPIF_LIST_GET(l, i));
+            }
+            putchar(']');
+        }
+        SPIF_LIST_DEL(l);
+    }
     else return 0;
     return 1;
 }
@@ -417,12 +560,56 @@ static spif_obj_t new_container(void)
     }
 }
 
+/* fork: duplicate the current container through its interface; the copy becomes the current one.
+ * copy[i] is registered under the id of original[i] when both are objects with equal text and copy[i]
+ * is an object the table does not know yet, so that the ideal side needs no renaming; anything else
+ * (shared object, wrong text, missing element) shows up as '?' / '_' in the read-back that follows. */
+static void reg_copy(spif_obj_t q, spif_obj_t p, int tag)
+{
+    int i = q ? slot_of(q) : -1;
+    if (i < 0 || !p || slot_of(p) >= 0 || ntab >= MAXENT) return;
+    if (SPIF_OBJ_CLASS(p) != SPIF_CLASS(SPIF_STRCLASS_VAR(str)) || SPIF_OBJ_CLASS(q) != SPIF_CLASS(SPIF_STRCLASS_VAR(str))) return;
+    if (strcmp((const char *) SPIF_STR_STR(SPIF_STR(p)), (const char *) SPIF_STR_STR(SPIF_STR(q)))) return;
+    tab[ntab].p = p; tab[ntab].id = tab[i].id; tab[ntab].inset = tab[i].inset; tab[ntab].seen = 0; tab[ntab].own = tag;
+    ntab++;
+}
+static int do_fork(void)
+{
+    spif_obj_t c = cont[cur], d;
+    int i, n, m;
+    if (cont[1 - cur]) return 0;                       /* one fork per history */
+    if (iface == IF_LIST) {
+        d = SPIF_OBJ(SPIF_LIST_DUP(c));
+        if (!d) { putchar('?'); return 1; }
+        n = (int) SPIF_LIST_COUNT(c);
+        m = (int) SPIF_LIST_COUNT(d);
+        for (i = 0; sane(n) && i < n && i < m; i++) reg_copy(SPIF_LIST_GET(c, i), SPIF_LIST_GET(d, i), 1 - cur);
+    } else if (iface == IF_VECTOR) {
+        spif_obj_t *x, *y;
+        d = SPIF_OBJ(SPIF_VECTOR_DUP(c));
+        if (!d) { putchar('?'); return 1; }
+        n = (int) (size_t) SPIF_VECTOR_COUNT(c);
+        m = (int) (size_t) SPIF_VECTOR_COUNT(d);
+        x = SPIF_VECTOR_TO_ARRAY(c);
+        y = SPIF_VECTOR_TO_ARRAY(d);
+        for (i = 0; x && y && sane(n) && i < n && i < m; i++) reg_copy(x[i], y[i], 1 - cur);
+        if (x) free(x);
+        if (y) free(y);
+    } else {
+        d = SPIF_OBJ(SPIF_MAP_DUP(c));
+        if (!d) { putchar('?'); return 1; }
+    }
+    cont[1 - cur] = d;
+    cur = 1 - cur;
+    putchar('T');
+    return 1;
+}
+
 static void run_case(int ntok, char **tok)
 {
-    static char *ops[4096];
+    static char *ops[MAXENT];
     char *a[4];
-    spif_obj_t c;
-    int nops, k, na, ok;
+    int nops, k, na, ok, quiet;
     const char *e = getenv("LV_CONT_B");
 
     show_b = (e && e[0] && e[0] != '0');
@@ -438,22 +625,37 @@ static void run_case(int ntok, char **tok)
 
     ntab = next_id = npool = 0;
     ck = cv = NULL;
-    c = new_container();
-    if (!c) { printf("HARNESS-ERROR:new"); return; }
-    nops = split_on(tok[2], ';', ops, 4096);
+    cur = rb_tag = 0;
+    cont[0] = new_container();
+    cont[1] = (spif_obj_t) NULL;
+    if (!cont[0]) { printf("HARNESS-ERROR:new"); return; }
+    nops = split_on(tok[2], ';', ops, MAXENT);
     for (k = 0; k < nops; k++) {
-        na = split_on(ops[k], ':', a, 4);
-        ok = (iface == IF_LIST) ? do_list_op(c, na, a) : (iface == IF_VECTOR) ? do_vector_op(c, na, a) : do_map_op(c, na, a);
+        char *o = ops[k];
+        quiet = (o[0] == '~');
+        if (quiet) o++;
+        na = split_on(o, ':', a, 4);
+        rb_tag = cur;
+        if (IS("fork") && na == 1) ok = do_fork();
+        else if (IS("swap") && na == 1) { if (cont[1 - cur]) cur = 1 - cur; putchar('T'); ok = 1; }
+        else ok = (iface == IF_LIST) ? do_list_op(cont[cur], na, a) : (iface == IF_VECTOR) ? do_vector_op(cont[cur], na, a) : do_map_op(cont[cur], na, a);
         if (!ok) { printf("HARNESS-ERROR:bad-op:%s", a[0]); return; }
+        if (quiet) { printf("| ; "); continue; }
         putchar(' ');
-        readback(c);
+        rb_tag = cur;
+        readback(cont[cur]);
+        if (cont[1 - cur]) { printf(" O "); rb_tag = 1 - cur; readback(cont[1 - cur]); }
         putchar('|');
-        bdump(c);
+        if (show_b) {
+            bdump(cont[cur]);
+            if (cont[1 - cur]) { printf(" O "); bdump(cont[1 - cur]); }
+        }
         printf(" ; ");
     }
-    /* tear-down: the container deletes what it holds, the harness what was handed back */
+    /* tear-down: the containers delete what they hold (the current one first), the harness what was handed back */
     drop_caller();
-    SPIF_OBJ_DEL(c);
+    SPIF_OBJ_DEL(cont[cur]);
+    if (cont[1 - cur]) SPIF_OBJ_DEL(cont[1 - cur]);
     for (k = 0; k < npool; k++) { unreg(pool[k]); SPIF_OBJ_DEL(pool[k]); }
     printf("end");
 }
